@@ -69,6 +69,21 @@ Section Walk.
     | _ => visit_pages visit_blocks pages s
     end.
 
+  (* the pages after the walk: _mi_heap_area_visit_blocks force-collects (`_mi_page_free_collect(page,true)`) every page whose
+     area call was accepted when visit_blocks is set -- also when a later block call stops the walk; pages behind the stop
+     and every page of an areas-only walk are untouched *)
+  Fixpoint walk_pages_after (visit_blocks : bool) (pages : list (N * page)) (s : S) : list (N * page) :=
+    match pages with
+    | [] => []
+    | (pg, p) :: r =>
+      let '(s1, ok) := visitor s (area_call pg p) in
+      if negb ok then (pg, p) :: r
+      else if visit_blocks then
+        let '(s2, _, res) := area_visit_blocks pg p s1 in
+        (pg, fst (page_free_collect p true)) :: (if res then walk_pages_after visit_blocks r s2 else r)
+      else (pg, p) :: walk_pages_after visit_blocks r s1
+    end.
+
   (* ---- specification side: one flat call sequence cut at the first refusal ---- *)
   Fixpoint run_calls (s : S) (cs : list vcall) : S * list vcall * bool :=
     match cs with
@@ -95,3 +110,6 @@ Definition stop_at_visitor (k : N) (n : N) (c : vcall) : N * bool := (n + 1, neg
 
 Definition walk_stop_at (visit_blocks : bool) (k : N) (pages : list (N * page)) : list vcall * bool :=
   let '(_, tr, res) := heap_visit_blocks N (stop_at_visitor k) visit_blocks pages 0 in (tr, res).
+
+Definition pages_after_stop_at (visit_blocks : bool) (k : N) (pages : list (N * page)) : list (N * page) :=
+  walk_pages_after N (stop_at_visitor k) visit_blocks pages 0.
